@@ -421,7 +421,8 @@ def _cumulative_accumulator(state, new, op=None):
         df = df_package.concat([state, new])  # ouch, full copy
 
     result = getattr(df, op)()
-    new_state = result.iloc[-1:]
+    # carry the last valid cumulative value: the batch may end in NaN
+    new_state = result.ffill().iloc[-1:]
     if len(state):
         result = result[1:]
     return new_state, result
